@@ -402,7 +402,6 @@ func vLRUStep2(maxCap, touches int) {
 }
 
 func H_C09_step2_touched()   { vLRUStep2(2, 2) }
-func H_C09T_step2_touched3() { vLRUStep2(3, 2) }
 
 // ---- larger capacities: one operation from a full or nearly full cache of a written-out capacity ----
 func vLRUStepAt(c int) {
@@ -423,6 +422,3 @@ func vLRUStepAt(c int) {
 func H_C09_cap8()   { vLRUStepAt(8) }
 func H_C09_cap16()  { vLRUStepAt(16) }
 func H_C09_cap17()  { vLRUStepAt(17) }
-func H_C09T_cap32() { vLRUStepAt(32) }
-func H_C09T_cap33() { vLRUStepAt(33) }
-func H_C09T_cap64() { vLRUStepAt(64) }
